@@ -749,6 +749,34 @@ def classify(v, case):
             todo_.extend(c_["base"] for c_ in by[n_]["components"])
         if composed_2x2_overflows(by, v["detail"]["glyph"]) and (set(case["skip"]) & reach_):
             return "merged_reference_overflows_f2dot14_decomposed_without_sparse_master"
+    if (v["mech"] == "structure_differs_across_masters" and "TTF" in case["func"]
+            and (case["opts"].get("flattenComponents") or case["skip"])):
+        # same root as merged_reference_overflows_...: nested references merged into one whose
+        # composed 2x2 part cannot be stored are decomposed by the glyf builder, master by
+        # master; in a sparse master that lacks one of the bases (an empty placeholder stands
+        # in for it) the decomposed glyph lacks that base's contours
+        ds_ = case["ds"]
+        by = {g["name"]: g for g in ds_["ufos"][ds_["sources"][
+            masters.default_source_index(ds_)]["ufo"]]["glyphs"]}
+        gname = v["detail"]["glyph"]
+        reach_, todo_ = set(), [gname]
+        while todo_:
+            n_ = todo_.pop()
+            if n_ in reach_ or n_ not in by:
+                continue
+            reach_.add(n_)
+            todo_.extend(c_["base"] for c_ in by[n_]["components"])
+        leaves_ = {n_ for n_ in reach_ if by[n_]["contours"]}
+        lacking = False
+        for s_ in ds_["sources"]:
+            if s_.get("layerName") or s_.get("sparse_ufo"):
+                u_ = ds_["ufos"][s_["ufo"]]
+                have = {g["name"] for g in (u_["layers"][s_["layerName"]] if s_.get("layerName")
+                                            else u_["glyphs"])}
+                if leaves_ - have:
+                    lacking = True
+        if lacking and gname in by and composed_2x2_overflows(by, gname):
+            return "merged_reference_overflows_f2dot14_decomposed_over_placeholder_bases"
     if v["mech"] == "structure_differs_across_masters":
         # the decomposition reverses the contours of a mirrored component (negative
         # determinant) master by master: a component that is mirrored in some masters only
@@ -759,6 +787,22 @@ def classify(v, case):
             and "tx:" in v["detail"].get("trace", "") and "can't find cmap" in v["detail"]["trace"]
             and any(s_.get("layerName") for s_ in case["ds"]["sources"])):
         return "interpolatable_otf_subroutinize_fails_on_sparse_master"
+    if (v["mech"] == "unexpected_exception" and case["opts"].get("optimizeCFF") == 2
+            and "AttributeError" in v["detail"].get("trace", "") and "charset" in v["detail"]["trace"]
+            and "OTF" in case["func"]):
+        # a sparse master whose glyph order is a prefix of the predefined ISOAdobe charset
+        # ('.notdef space'): cffsubr's output then uses the predefined charset id, which
+        # fontTools cannot compile again (C04's listed finding, reached through a sparse master)
+        from vf.props.c04 import ISO_PREFIX
+        for s_ in case["ds"]["sources"]:
+            u_ = case["ds"]["ufos"][s_["ufo"]]
+            gl_ = u_["layers"][s_["layerName"]] if s_.get("layerName") else u_["glyphs"]
+            names_ = [g["name"] for g in gl_ if g["name"] not in set(case["skip"])]
+            if ".notdef" not in names_:
+                names_ = [".notdef"] + names_
+            if (s_.get("layerName") or s_.get("sparse_ufo")) and \
+                    sorted(names_) == sorted(ISO_PREFIX[:len(names_)]):
+                return "cffsubr_predefined_charset_unsavable"
     if v["mech"] == "unexpected_exception":
         # TrueType path: the same per-master reversal makes the masters disagree in point types,
         # which the joint cubic-to-quadratic conversion rejects
